@@ -544,6 +544,7 @@ def fold(spectrum):
         for ii in range(len(spectrum)):
             spectrum.mask[ii,ii+1:] = True
             spectrum.mask[ii,len(spectrum)-1-ii:] = True
+        spectrum.folded_major = True
         return spectrum
 
 def univariate_lognormal_pdf(x,sigma,mu):
@@ -623,6 +624,8 @@ def fold_ancestral(F):
             kk = ns-ii-jj
             if not (kk>=ii>=jj):
                 F_new.mask[ii,jj] = True
+    F_new.folded_major = True
+    F_new.folded_ancestral = True
     return F_new
 
 def ln_binomial(n,k):
